@@ -154,9 +154,13 @@ class _Tagged(nnx.Variable):
   pass
 
 
+class _SubParam(nnx.Param):
+  """a Variable type whose superclass is itself a usual filter"""
+
+
 TAGS = ['t0', 't1']
 KEYS = ['k0', 'k1', 3]
-VTYPES = [nnx.Param, nnx.BatchStat, _Tagged, nnx.Variable]
+VTYPES = [nnx.Param, nnx.BatchStat, _Tagged, nnx.Variable, _SubParam]
 TAGV = [None, 't0', 't1', 't']      # 't' is a proper substring of the others
 
 # (label, constructor, reference predicate(path, vtype, tag))
@@ -181,7 +185,12 @@ LEAVES = [
     ('Everything()', lambda: FL.Everything(), lambda p, t, g: True),
     ('Nothing()', lambda: FL.Nothing(), lambda p, t, g: False),
     ("'t'", lambda: 't', lambda p, t, g: g == 't'),
+    ('_SubParam', lambda: _SubParam, lambda p, t, g: issubclass(t, _SubParam)),
 ]
+# leaf kinds offered to the split APIs: the reduced set + a superclass type filter
+# (Variable) and a subclass type filter (_SubParam), so that an earlier filter can be
+# a superclass of a later one
+SPLIT_LEAVES = [0, 1, 2, 3, 4, 5, 6, 16]
 NLEAF = len(LEAVES)
 NRED = 6
 EVERY = (3, 10)  # leaf indices that are `...` / True
@@ -255,7 +264,7 @@ def nnx_split(n, c0, c1, c2, nf, vt0, vt1, vt2, tg0, tg1, tg2, which):
   paths = PATHS[:n]
   codes = []
   for c in (c0, c1, c2)[:nf]:
-    codes.append(pick(list(range(NLEAF)), c))   # concrete leaf index per path
+    codes.append(pick(SPLIT_LEAVES, c))         # concrete leaf index per path
   leaves = [LEAVES[c] for c in codes]
   filters = [lf[1]() for lf in leaves]
   flat = [(p, v[0]) for p, v in zip(paths, vals)]
@@ -364,7 +373,7 @@ def obligations(tier):
   red = I(0, (NRED if quick else NLEAF) - 1)
   obs += [
       Ob('nnx_leaf', nnx_leaf,
-         dict(c=I(0, NLEAF - 1), p0=I(0, 2), p1=I(0, 2), vt=I(0, 3), tg=I(0, 3),
+         dict(c=I(0, NLEAF - 1), p0=I(0, 2), p1=I(0, 2), vt=I(0, 4), tg=I(0, 3),
               as_state=B()), split=('c',), timeout=240, funcs=NF_,
          bounds='%d leaf filter kinds x paths over 3 keys (len 2) x 4 Variable '
                 'types x 3 tags x {Variable, VariableState}' % NLEAF),
@@ -375,9 +384,9 @@ def obligations(tier):
          bounds='%d combinators (Any/All/Not/list/tuple, depth<=3) over leaf pairs '
                 'from %s' % (len(COMB), [l[0] for l in LEAVES[:red.hi + 1]])),
       Ob('nnx_split', nnx_split,
-         dict(n=I(2, 2) if quick else I(1, 2), c0=I(0, NRED - 1), c1=I(0, NRED - 1),
-              c2=I(0, NRED - 1),
-              nf=I(1, 2 if quick else 3), vt0=I(0, 2), vt1=I(0, 2), vt2=I(0, 2),
+         dict(n=I(2, 2) if quick else I(1, 2), c0=I(0, len(SPLIT_LEAVES) - 1),
+              c1=I(0, len(SPLIT_LEAVES) - 1), c2=I(0, NRED - 1),
+              nf=I(1, 2 if quick else 3), vt0=I(0, 4), vt1=I(0, 4), vt2=I(0, 2),
               tg0=I(0, 1), tg1=I(0, 1), tg2=I(0, 1), which=I(0, 3)),
          split=('which', 'nf', 'c0') if quick else ('which', 'nf', 'c0', 'c1'),
          timeout=300, funcs=NF_,
